@@ -114,6 +114,9 @@ def run(db, rep, tier):
     rep.rule("R9-alias-safe", "PDU::inner_pdu(const PDU&) takes its copy of the argument before the current child chain is released (the argument "
                               "may be one of the receiver's own descendants); PDU copies start without a parent link", 3)
     r9(db, rep)
+    rep.rule("R10-self-and-release", "assignment operators do their work on the `this != &rhs` side of a self test (never only for self-assignment); "
+                                     "release_*() hands back the owning member and leaves it null", 5)
+    r10(db, rep)
     controls(db, rep)
     rep.explanation = ("Decides the ownership/linking clauses of C12 that are visible in the shape of the special members and of "
                        "the child-link mutators: every pointer-owning class (found from its destructor) is checked member by "
@@ -1152,3 +1155,62 @@ def r9(db, rep):
             rep.ok("R9-alias-safe", key, facts.loc(f), "parent_pdu_ is not taken from the source")
     if n < 2:
         rep.analysis_broken("PDU copy / move members not found (%d)" % n)
+
+
+def r10(db, rep):
+    from vlib import cond as _cond
+    own = owners(db)
+    n = 0
+    for rec, field, dtor in own:
+        r = db.records.get(rec) or {}
+        for m in r.get("methods", []):
+            f = db.fn(m["id"])
+            if f is None or not f.get("body"):
+                continue
+            nm = f["qual"].split("::")[-1]
+            g = None
+            # (a) polarity of the self test
+            if f.get("special") in ("copy_assign", "move_assign"):
+                g = cfg.FnCFG(f)
+                sts = stores_to(f, field)
+                if not sts:
+                    continue
+                n += 1
+                key = "%s::%s:%s:self-test" % (rec.replace("Tins::", ""), nm, f["special"])
+                bad = None
+                for node, val, how in sts:
+                    pos = g.pos(node)
+                    if pos is None:
+                        continue
+                    for c, pol, _ in g.guards_at(pos):
+                        if is_self_test(c) and pol != (op_of(c) == "!="):
+                            bad = node
+                if bad is not None:
+                    rep.violation("R10-self-and-release", key, facts.loc(f, bad),
+                                  "`%s` is stored only when this == &rhs: assigning from another object does nothing, the target keeps its old "
+                                  "layers" % field)
+                else:
+                    rep.ok("R10-self-and-release", key, facts.loc(f), "work is done on the not-self side (or unconditionally)")
+            # (b) release functions
+            if nm.startswith("release"):
+                g = g or cfg.FnCFG(f)
+                n += 1
+                key = "%s::%s:%s" % (rec.replace("Tins::", ""), nm, field)
+                nulls = []
+                for node, val, how in stores_to(f, field):
+                    if (val is not None and is_null(val)) or how == "swap":
+                        nulls.append(g.pos(node))
+                nulls = [q for q in nulls if q]
+                for x in facts.fn_nodes(f):
+                    if x["k"] == "CallExpr" and x.get("cname") == "swap" and any(this_field(a_, field) for a_ in x["c"][1:]):
+                        q = g.pos(x)
+                        if q:
+                            nulls.append(q)
+                if nulls and g.reaches_exit_avoiding((g.entry, -1), nulls, normal_only=True) is None:
+                    rep.ok("R10-self-and-release", key, facts.loc(f), "%s is cleared on every path" % field)
+                else:
+                    rep.violation("R10-self-and-release", key, facts.loc(f),
+                                  "%s() hands out %s but can return with the member still pointing at it: the object deletes it again later "
+                                  "(double free)" % (nm, field))
+    if n < 5:
+        rep.analysis_broken("only %d assignment operators / release functions of owning classes found" % n)
